@@ -3,7 +3,8 @@
 proof:          lean/MPilot/Props/C09.lean
 correspondence: for sequences of consumers over shared producer arrays, every live result is snapshotted before and after
                 every execute and compared with the model (results only; identity/alias facts are compared with the heap model)
-oracles:        shape, element type, missing cells and non-missing values of every live array unchanged after every consumer
+oracles:        shape, element type, missing cells and non-missing values of every live array unchanged after every consumer;
+                the same for every command over float64 fields of 10^5 .. some 10^6 cells (masked with / without a mask array, plain ndarrays)
 """
 import numpy
 
@@ -295,6 +296,67 @@ def identity_cases():
     return out
 
 
+SORTING = ("FuzzySelectedUnion", "FuzzyXOr")       # these stack and sort their inputs: seconds on millions of cells
+# ... and these loop over categories / curve segments with an index array per step: their top rung is lower than that of the others
+HEAVY = SORTING + ("NormalizeCat", "CvtToFuzzyCat", "NormalizeCurve", "CvtToFuzzyCurve", "NormalizeMeanToMid", "CvtToFuzzyMeanToMid", "NormalizeCurveZScore", "CvtToFuzzyCurveZScore")
+
+
+def big_fields(ctx):
+    """every command as a consumer of BIG results - a ladder of grids from 10^5 to some 10^6 cells, float64 (what a reader delivers by default) as a masked
+    array with missing cells, as a masked array without a mask array and as a plain ndarray (a plug-in command's result), integers at the lowest rung;
+    n-ary commands over two fields and over one: after the command has run, every field it was given holds what it held (a body may switch to in-place
+    accumulation, views or blocks above some size, and conversions like `asarray(x, dtype=float)` copy only when the element type differs)"""
+    rng = eems._rng2(ctx)
+    seed = rng.randrange(2 ** 31)
+    nr = numpy.random.RandomState(seed)
+    ladder = [((100000,), ("mask", "nomask", "plain", "int"), None), ((500, 600), ("mask", "nomask", "plain"), None),
+              ((1000, 1200), ("mask", "plain"), True), ((1250, 2000), ("mask", "plain"), False)]        # (the top rungs: 1.2 million cells for the heavy commands, 2.5 million for the others)
+    if ctx.thorough:
+        ladder.append(((3, 1100, 1000), ("mask", "plain"), None))
+    for shape, forms, heavy in ladder:
+        cells = int(numpy.prod(shape))
+        for form in forms:
+            def mk(lat):
+                return eems.big_field(nr, shape, "mask" if form == "int" else form, 1 if form == "int" and lat == 4 else lat, int if form == "int" else float)
+            pools = {False: [mk(8), mk(8)], True: [mk(4), mk(4)]}
+            snaps = {id(a): eems.field_snapshot(a) for pool in pools.values() for a in pool}
+            for cmd in eems.COMMANDS:
+                how = eems.COMMANDS[cmd][1]
+                if (heavy is not None and heavy != (cmd in HEAVY)) or (cells > 1000000 and cmd in SORTING and form != "plain"):
+                    continue            # (beyond a million cells the two sorting commands run on the plain fields only)
+                pool = pools[cmd in eems.FUZZY_CONSUMERS]
+                arities = [1] if how == "one" else [2] if how == "ab" else [2] + ([1] if cells <= 300000 and form in ("mask", "plain") and cmd != "FuzzyXOr" else [])
+                for n in arities:
+                    ins = pool[:n]
+                    for attempt in range(8):
+                        params = eems.gen_params(rng, cmd, ins, "valid")
+                        st, r = eems.execute_on(cmd, params, ins)
+                        diffs = [(k, eems.field_changed(snaps[id(a)], a)) for k, a in enumerate(ins)]
+                        if st == "ok" or any(d for _, d in diffs):
+                            break
+                    ctx.case("big-field %s %s %r %d %r" % (cmd, form, shape, n, sorted(params.items())), sample=None)
+                    ctx.count("c09_big_field_steps")
+                    ctx.count("c09_big_field_steps:%d cells" % cells)
+                    if st != "ok":
+                        ctx.count("c09_big_field_errors")
+                    for k, d in diffs:
+                        if d:
+                            what = {"mask": "float64 masked array with missing cells", "nomask": "float64 masked array without a mask array", "plain": "plain float64 ndarray",
+                                    "int": "int64 masked array with missing cells"}[form]
+                            ctx.fail("%s over %d field(s) of %d cells (%s): its input no. %d, the stored result of another command, changed - %s (outcome of the command: %s)" % (
+                                cmd, n, cells, what, k, d, st if st == "ok" else type(r).__name__),
+                                {"cmd": cmd, "params": {k_: repr(v) for k_, v in params.items()}, "shape": list(shape), "fields": what,
+                                 "values": "quarters between -2 and 2 (fuzzy inputs: between -1 and 1; integers: whole numbers), 3 %% of the cells missing; numpy.random.RandomState(%d)" % seed,
+                                 "input_before": repr(snaps[id(ins[k])][4].ravel()[:8].tolist()), "input_after": repr(numpy.ma.getdata(ins[k]).ravel()[:8].tolist())})
+                            # the field as it was, for the commands that follow
+                            t, dt, sh, m0, d0 = snaps[id(ins[k])]
+                            fresh = numpy.ma.array(d0.copy(), mask=m0.copy()) if form in ("mask", "int") else numpy.ma.array(d0.copy()) if form == "nomask" else d0.copy()
+                            pool[k] = fresh
+                            snaps[id(fresh)] = eems.field_snapshot(fresh)
+                            break
+            del pools, snaps
+
+
 def run(ctx):
     ctx.check_proofs(["MPilot.Props.C09", "MPilot.Props.C09Hist"])
     model = common.Model()
@@ -324,6 +386,7 @@ def run(ctx):
     writers(ctx, ctx.budget(40, 1500))
     overshoot_chains(ctx)
     nonfinite_programs(ctx, ctx.budget(40, 1500))
+    big_fields(ctx)
     return ctx.finish(
         rule="(a) every data command incl. single-input forms of n-ary operators: inputs compared before/after one execute; "
              "(b) random sequences of up to 8 consumers (all 31 data commands) over 6 shared producer arrays and the results produced on "
